@@ -51,7 +51,10 @@ def rnd_scale(rng):
 
 
 def near(rng):
-    """distance from a bound: log-uniform in [1e-9, 1]"""
+    """distance from a bound: log-uniform in [1e-9, 1], sometimes down to 1e-18 (representable next
+    to a bound close to 0 only; the callers fall back to an interior value otherwise)"""
+    if rng.random() < 0.15:
+        return 10 ** rng.uniform(-18, -9)
     return 10 ** rng.uniform(-9, 0)
 
 
